@@ -45,6 +45,6 @@ impl Decode for SessionId {
 
 impl From<StreamId> for SessionId {
     fn from(value: StreamId) -> Self {
-        Self(value.index())
+        Self(value.into_inner())
     }
 }
